@@ -62,6 +62,13 @@ pub fn op_name(op: u64) -> &'static str {
     }
 }
 
+/// Reach probe per operation kind ("history op NNN: label"), so that the evidence shows how often
+/// each kind actually produced values.
+fn op_probe(op: u64) -> &'static str {
+    static NAMES: std::sync::OnceLock<Vec<&'static str>> = std::sync::OnceLock::new();
+    NAMES.get_or_init(|| (0..NOPS).map(|o| &*Box::leak(format!("history op {o:03}: {}", op_name(o)).into_boxed_str())).collect())[(op % NOPS) as usize]
+}
+
 /// operations that are expensive on very wide types (skipped above 1024 bits)
 fn heavy(op: u64) -> bool {
     matches!(op, 40..=52)
@@ -815,6 +822,9 @@ pub fn run<const B: usize, const L: usize>(ctx: &mut Ctx, plan: &Plan) {
         ctx.event("H-OP", op, k);
         match guard(|| apply_all::<B, L>(op, a, b, k)) {
             Guarded::Ok((name, outs, foreign)) => {
+                if !outs.is_empty() || !foreign.is_empty() {
+                    ctx.probe(op_probe(op));
+                }
                 for fv in foreign {
                     produced += 1;
                     if !fv.canon {
